@@ -418,7 +418,7 @@ func c11Judge(c *c11Case, wr *worldRun) *c11Verdict {
 		switch {
 		case pr.Exit != 0:
 			anyFailure = fmt.Sprintf("plugin %s exited with status %d", pl.Name, pr.Exit)
-		case pl.Script["error"] != nil && cls == "valid" && string(pr.Notes["out.mangled"]) == "false":
+		case pl.Script["error"] != nil && cls == "valid" && string(pr.Notes["out.mangled"]) == "false" && pr.Notes["fault.skipped_for_language"] == nil:
 			anyFailure = fmt.Sprintf("plugin %s answered with an error", pl.Name)
 		case cls == "invalid":
 			anyFailure = fmt.Sprintf("plugin %s wrote output that is not a Response (%s)", pl.Name, pl.Script["mangle"])
@@ -667,6 +667,15 @@ func c11Check(a *artefacts, tier string, seed uint64, replay string) int {
 		}
 		for k := 0; k < np; k++ {
 			c.Plugins = append(c.Plugins, c11GenPlugin(r, k, c.limit(), backendFiles))
+		}
+		// with two languages, some faulty plugins misbehave for one language only
+		if c.Second != nil {
+			for k := range c.Plugins {
+				pl := &c.Plugins[k]
+				if (pl.Kind == "error" || pl.Kind == "exit" || pl.Kind == "garbled") && pl.Script["decode"] == true && r.Chance(1, 2) {
+					pl.Script["fault_lang"] = []string{c.Cfg.Backend, c.Second.Backend}[r.Intn(2)]
+				}
+			}
 		}
 		// uniform JSON types (the case is later re-read from replay files)
 		{
